@@ -76,15 +76,26 @@ class TwoSidedFamily(GenericModelFamily):
                            "theorem_or_correspondence": "in-kernel replay disagrees with extracted model",
                            "kernel_bad": kbad[:10]}, False)
         # the classifier is applied to the failing case itself, here as well as in the model
-        seen, outside = {}, []
+        seen, outside, regressed = {}, [], {}
+        open_ids = {f["id"] for f in ctx.findings}      # status "known" only: a fixed entry suppresses nothing
         for i, mask in known:
             text = lines[i] if i < len(lines) else ""
             for bit, fid in self.finding_bits.items():
                 if mask & bit:
-                    if self.in_class(text, bit):
+                    if fid not in open_ids:
+                        regressed.setdefault(fid, []).append(i)
+                    elif self.in_class(text, bit):
                         seen.setdefault(fid, i)
                     else:
                         outside.append(i)
+        for fid, idx in regressed.items():
+            for i in idx[:3]:
+                case_text = lines[i] if i < len(lines) else "?"
+                ctx.violation({"family": self.correspondence, "case_index": i, "case": case_text,
+                               "violated_clause": "the implementation shows the faulty behaviour of the repaired defect '%s' again "
+                                                  "(it agrees with the model of the code before the fix, not with the model that has "
+                                                  "the property); %d cases" % (fid, len(idx)),
+                               "theorem_or_correspondence": self.correspondence}, True)
         for n, i in enumerate((bad + outside)[:6]):
             case_text = lines[i] if i < len(lines) else "?"
             model_text = kernel_eval(self.module, "%s (%s)" % (self.model_fn, case_text)) if n < 2 else "(not evaluated)"
